@@ -15,6 +15,7 @@ import (
 	"bytes"
 	"context"
 	"encoding/json"
+	"errors"
 	"fmt"
 	"io"
 	"net"
@@ -35,6 +36,7 @@ import (
 	"github.com/atlassian/gostatsd/pkg/lambda"
 	"github.com/atlassian/gostatsd/pkg/statsd"
 	"github.com/atlassian/gostatsd/pkg/transport"
+	"github.com/atlassian/gostatsd/pkg/verifhook"
 
 	"verif/mon"
 )
@@ -49,6 +51,13 @@ type config struct {
 	Failure     string   `json:"startup_failure"` // "" | mode | endpoint | compression
 	WindowMS    int      `json:"retry_window_ms"`
 	GlacialMS   int      `json:"glacial_upstream_ms"`
+	// ManyNames makes every invocation carry thousands of distinct metric names (one flush = one big map)
+	ManyNames int `json:"distinct_names_per_invocation,omitempty"`
+	// HoldSlot forces the interleaving "an ingestion request holds a consolidator slot while runtime-done arrives"
+	HoldSlot bool `json:"hold_consolidator_slot,omitempty"`
+	// ScriptedServer replaces the real statsd.Server by a server whose Run returns this error kind at once
+	// (start-up failure classification): plain | nil | canceled | deadline | wrapped-deadline
+	ScriptedServer string `json:"scripted_server_error,omitempty"`
 }
 
 // ---------------------------------------------------------------------------------------------
@@ -223,9 +232,97 @@ func ingest(client *http.Client, addr string, ids []string) (int, error) {
 	return resp.StatusCode, nil
 }
 
+// ingestNames posts one map in which every id is the single member of its own, distinctly named set.
+func ingestNames(client *http.Client, addr string, ids []string) (int, error) {
+	msg := &pb.RawMessageV2{Sets: map[string]*pb.SetTagV2{}}
+	for _, id := range ids {
+		msg.Sets["verif.n."+id] = &pb.SetTagV2{TagMap: map[string]*pb.RawSetV2{"": {Values: []string{id}}}}
+	}
+	raw, _ := proto.Marshal(msg)
+	resp, err := client.Post("http://"+addr+"/v2/raw", "application/x-protobuf", bytes.NewReader(raw))
+	if err != nil {
+		return 0, err
+	}
+	_, _ = io.Copy(io.Discard, resp.Body)
+	_ = resp.Body.Close()
+	return resp.StatusCode, nil
+}
+
+type scriptedServer struct{ err error }
+
+func (s scriptedServer) Run(ctx context.Context) error { return s.err }
+
+// runScriptedStartupFailure: the wrapped server's Run returns at once with a scripted result while the manager is
+// still inside its start-up window (the mock clock is never advanced).
+func runScriptedStartupFailure(r *mon.Run, cfg config) {
+	r.Case("scripted start-up failure %+v", cfg)
+	logger := logrus.New()
+	logger.SetOutput(io.Discard)
+	w := &world{r: r, cfg: cfg, bodies: map[string]*body{}, next: make(chan string)}
+	w.runtime = httptest.NewServer(http.HandlerFunc(w.runtimeHandler))
+	defer w.runtime.Close()
+	var err error
+	switch cfg.ScriptedServer {
+	case "plain":
+		err = errors.New("listen udp :8125: bind: address already in use")
+	case "nil":
+		err = nil
+	case "canceled":
+		err = context.Canceled
+	case "deadline":
+		err = context.DeadlineExceeded
+	default:
+		err = fmt.Errorf("fetching instance identity: %w", context.DeadlineExceeded)
+	}
+	manual := cfg.Exec%2 == 0
+	ext, _, e := lambda.VerifNewExtensionWithServer(logger, scriptedServer{err}, lambda.Options{
+		RuntimeAPI: strings.TrimPrefix(w.runtime.URL, "http://"), ExecutableName: "gostatsd-verif", EnableManualFlush: manual, TelemetryAddr: freeAddr(),
+	})
+	if e != nil {
+		r.Inconclusive("setup:" + e.Error())
+		return
+	}
+	mock := clock.NewMock(time.Now())
+	ctx, cancel := context.WithCancel(clock.Context(context.Background(), mock))
+	defer cancel()
+	runErr := make(chan error, 1)
+	go func() { runErr <- ext.Run(ctx) }()
+	viol := func(sig, detail string) {
+		r.Violation(sig, detail+fmt.Sprintf(" [%+v manual-flush=%v]", cfg, manual), map[string]interface{}{"config": cfg})
+	}
+	select {
+	case got := <-runErr:
+		w.mu.Lock()
+		gets, initErr := len(w.gets), w.initErr
+		w.mu.Unlock()
+		if got == nil {
+			viol("startup-failure-not-reported:"+cfg.ScriptedServer, "Run returned nil although the wrapped server stopped during start-up")
+		}
+		if initErr != 1 {
+			viol("init-error-count:"+cfg.ScriptedServer, fmt.Sprintf("%d POST init/error requests for one start-up failure (server returned %v, Run returned %v)", initErr, err, got))
+		}
+		if gets != 0 {
+			viol("next-after-startup-failure:"+cfg.ScriptedServer, fmt.Sprintf("%d GET event/next although start-up failed", gets))
+		}
+		r.Eval(1)
+		r.Event("scripted_startup_failures", 1)
+		r.Nontrivial(fmt.Sprintf("scripted-startup:%s:manual=%v", cfg.ScriptedServer, manual))
+	case <-time.After(60 * time.Second):
+		// the manager did not take the failure as a start-up failure; with the clock frozen it waits for ever
+		w.mu.Lock()
+		gets, initErr := len(w.gets), w.initErr
+		w.mu.Unlock()
+		viol("startup-failure-ignored:"+cfg.ScriptedServer, fmt.Sprintf("the wrapped server's Run returned %v during start-up but the manager neither reported it nor returned within 60 s (init/error posts %d, GET next %d)", err, initErr, gets))
+	}
+}
+
 var otherRecords = []string{"platform.start", "platform.initStart", "platform.initRuntimeDone", "platform.report", "platform.extension", "platform.telemetrySubscription", "platform.logsDropped", "function"}
 
 func runExecution(r *mon.Run, cfg config) {
+	if cfg.ScriptedServer != "" {
+		runScriptedStartupFailure(r, cfg)
+		return
+	}
 	r.Case("execution %+v", cfg)
 	logrus.SetOutput(io.Discard)
 	logger := logrus.New()
@@ -343,7 +440,27 @@ func runExecution(r *mon.Run, cfg config) {
 	var idc atomic.Int64
 	var sentMu sync.Mutex
 	var all []sent
+	sendMany := func(n int) {
+		ids := make([]string, n)
+		for i := range ids {
+			ids[i] = fmt.Sprintf("e%d-%d", cfg.Exec, idc.Add(1))
+		}
+		status, err := ingestNames(client, ingestAddr, ids)
+		ack := r.Stamp()
+		if err != nil || status < 200 || status > 299 {
+			return
+		}
+		sentMu.Lock()
+		for _, id := range ids {
+			all = append(all, sent{id, ack})
+		}
+		sentMu.Unlock()
+	}
 	send := func(n int) {
+		if cfg.ManyNames > 0 && n > 0 {
+			sendMany(cfg.ManyNames)
+			return
+		}
 		var wg sync.WaitGroup
 		per := (n + cfg.Senders - 1) / cfg.Senders
 		for s := 0; s < cfg.Senders && n > 0; s++ {
@@ -367,6 +484,7 @@ func runExecution(r *mon.Run, cfg config) {
 					}
 					status, err := ingest(client, ingestAddr, ids)
 					ack := r.Stamp()
+					_ = status
 					if err != nil || status < 200 || status > 299 {
 						continue // not acknowledged: no obligation
 					}
@@ -438,6 +556,38 @@ func runExecution(r *mon.Run, cfg config) {
 				}
 			}
 			return false
+		}
+		if cfg.HoldSlot {
+			// Forced interleaving: an ingestion request (its data carries no obligation: it is acknowledged after
+			// runtime-done) takes a consolidator slot and is held there; the runtime-done flush must wait for that
+			// slot, because the slot's map may hold data acknowledged earlier in this invocation.
+			held, release := make(chan struct{}), make(chan struct{})
+			var armed atomic.Bool
+			armed.Store(true)
+			verifhook.Set("consolidator.slotHeld", func(string) {
+				if armed.CompareAndSwap(true, false) {
+					close(held)
+					<-release
+				}
+			})
+			lateDone := make(chan struct{})
+			go func() { defer close(lateDone); send(1) }()
+			select {
+			case <-held:
+				postDone := make(chan struct{})
+				go func() { defer close(postDone); post(recs, true) }()
+				time.Sleep(30 * time.Millisecond) // lets a flush that does not wait for the slot run ahead; not a synchronisation
+				close(release)
+				<-postDone
+				r.Event("slot_held_during_runtime_done", 1)
+			case <-time.After(20 * time.Second):
+				armed.Store(false)
+				close(release)
+				post(recs, true)
+			}
+			<-lateDone
+			verifhook.Clear("consolidator.slotHeld")
+			first, second = nil, nil
 		}
 		post(first, hasDone(first))
 		if cfg.LateData && rng.Intn(2) == 0 {
@@ -632,9 +782,30 @@ func TestCheck(t *testing.T) {
 			cfg.InitData = false
 			cfg.GlacialMS = []int{6500, 8500, 5200, 7400}[shard%4]
 		}
+		// one execution per run whose invocations carry thousands of distinct metric names (a flush that is
+		// large in every dimension a forwarder might batch by), against a slow upstream
+		if i == 0 && shard >= 4 && shard < 4+r.Pick(1, 4) {
+			cfg.Failure, cfg.GlacialMS = "", 0
+			cfg.Upstream = []string{"slow"}
+			cfg.Invocations = 2
+			cfg.ManyNames = []int{5000, 2500, 9000, 3100}[shard%4]
+		}
+		// forced interleaving: a slot held while runtime-done arrives
+		if i == 1 || (r.Thorough() && i%5 == 1) {
+			cfg.Failure = ""
+			cfg.HoldSlot = true
+		}
 		runExecution(r, cfg)
 		if r.Violations() > 6 {
 			return
 		}
+	}
+	// start-up failure classification with a scripted server: every error kind, with and without manual flush
+	kinds := []string{"plain", "nil", "canceled", "deadline", "wrapped-deadline"}
+	for k := 0; k < 2*len(kinds); k++ {
+		if !r.Mine(k) {
+			continue
+		}
+		runExecution(r, config{Exec: 900000 + k, ScriptedServer: kinds[k%len(kinds)]})
 	}
 }
